@@ -84,7 +84,7 @@ func (c *Ctx) indicatorHomogeneity(fi *load.FuncInfo) {
 	var in Deg = dVar("p")
 	generic := 0
 	for _, ps := range r.ParamStreams {
-		switch paramRole(ps.Param) {
+		switch paramRole(origName(fi, ps.Param)) {
 		case "Volume":
 			x.srcDeg[ps.Param] = dVar("v")
 		case "":
@@ -94,7 +94,7 @@ func (c *Ctx) indicatorHomogeneity(fi *load.FuncInfo) {
 			x.srcDeg[ps.Param] = dVar("p")
 		}
 	}
-	if len(r.ParamStreams) == 1 && paramRole(r.ParamStreams[0].Param) == "Volume" {
+	if len(r.ParamStreams) == 1 && paramRole(origName(fi, r.ParamStreams[0].Param)) == "Volume" {
 		in = dVar("v")
 	}
 	var outs []Deg
